@@ -8,6 +8,20 @@
 # rule: how cases are generated and what makes one non-trivial / distinct (copied into evidence)
 
 PROPS = {
+    "C04": {
+        "level": "exploration",
+        "rule": "rapid generates 1..5 commit chunks of 1..5 operations over all 8 kinds (valid unicode / whitespace-edged / long / "
+                "empty texts, 0..12 metadata keys, 0..3 attached blobs, 3 authors interleaved inside one staging area). Oracle: the "
+                "expected operation list (from the specification, ids predicted before the commit) equals, field by field, the "
+                "stored JSON parsed independently (ids = sha256 of each stored element, bug id = id of the first), bug.Read, "
+                "bug.ReadAll, a second replica after push/pull, its cache, and a round trip on the in-memory backend; Validate "
+                "passes on the reader's side; lamport times agree; every attached blob is readable with the same content on the "
+                "second replica; the bug id never changes. Non-trivial: >=2 commits, >=2 authors in a staging area, an attachment "
+                "or non-ASCII / edge-whitespace text. Distinct: op-kind sequence with chunking + author pattern.",
+        "assumptions": ["valid UTF-8 only; operations refused by Validate are not part of the expected history"],
+        "tests": [{"name": "TestC04RoundTrip", "quick": 150, "shards_quick": 2, "thorough": 500, "shards": 16},
+                  {"name": "TestC04ForeignForm", "quick": 400, "thorough": 3000, "shards": 2}],
+    },
     "C01": {
         "level": "exploration",
         "rule": "rapid generates action lists (8..40 actions, thorough ..110) over 2-3 go-git replicas sharing a bare remote: "
@@ -82,6 +96,13 @@ PROPS = {
 
 # Text for MANIFEST.json, per claimed property.
 MANIFEST_TEXT = {
+    "C04": {
+        "technique": "property-based testing (rapid): round trip of generated operation sequences through git, a second replica, the cache and both backends, with an independent sha256/JSON reader for the id laws",
+        "level_text": "Round-trip oracle over generated operation sequences and chunkings; ids and payloads are re-derived from the raw "
+                      "stored bytes by an independent reader. Exploration with shrinking.",
+        "design_ref": "DESIGN.md §4 C04",
+        "level_note": "Trusted: internal/ondisk as independent reader; go-git transport; valid UTF-8 only.",
+    },
     "C01": {
         "technique": "stateful property-based testing (rapid): generated multi-replica histories + sync to quiescence, convergence invariant vs a history model",
         "level_text": "Generated-input search over edit/push/pull histories of 2-3 real go-git repositories and a bare remote; the oracle "
